@@ -47,6 +47,7 @@ DECL2(args_get, (void*, U32, U32))
 DECL2(environ_sizes_get, (void*, U32, U32))
 DECL2(environ_get, (void*, U32, U32))
 DECL2(clock_time_get, (void*, U32, U64, U32))
+DECL2(clock_res_get, (void*, U32, U32))
 DECL2(random_get, (void*, U32, U32))
 void wasi_snapshot_preview1__proc_exit(void*, U32);
 void wasi_unstable__proc_exit(void*, U32);
@@ -167,6 +168,10 @@ int main(int argc, char** argv) {
             struct timespec ts; int id = atoi(strtok(NULL, " \n"));
             clock_gettime(id == 0 ? CLOCK_REALTIME : id == 1 ? CLOCK_MONOTONIC : id == 2 ? CLOCK_PROCESS_CPUTIME_ID : CLOCK_THREAD_CPUTIME_ID, &ts);
             fprintf(out, "now %lld\n", (long long)ts.tv_sec * 1000000000LL + ts.tv_nsec);
+        } else if (strcmp(cmd, "res") == 0) {
+            struct timespec ts; int id = atoi(strtok(NULL, " \n"));
+            clock_getres(id == 0 ? CLOCK_REALTIME : id == 1 ? CLOCK_MONOTONIC : id == 2 ? CLOCK_PROCESS_CPUTIME_ID : CLOCK_THREAD_CPUTIME_ID, &ts);
+            fprintf(out, "res %lld\n", (long long)ts.tv_sec * 1000000000LL + ts.tv_nsec);
         } else if (strcmp(cmd, "call") == 0) {
             char* fn = strtok(NULL, " \n"); int unstable = atoi(strtok(NULL, " \n")); U64 a[12]; int n = 0, known = 0; U32 r = 0xdead; char* t;
             while ((t = strtok(NULL, " \n")) && n < 12) a[n++] = strtoull(t, NULL, 10);
@@ -198,6 +203,7 @@ int main(int argc, char** argv) {
             CALL(environ_sizes_get, environ_sizes_get(NULL, (U32)A(0), (U32)A(1)))
             CALL(environ_get, environ_get(NULL, (U32)A(0), (U32)A(1)))
             CALL(clock_time_get, clock_time_get(NULL, (U32)A(0), A(1), (U32)A(2)))
+            CALL(clock_res_get, clock_res_get(NULL, (U32)A(0), (U32)A(1)))
             CALL(random_get, random_get(NULL, (U32)A(0), (U32)A(1)))
             if (g_storm_usec > 0) storm(0);
             if (strcmp(fn, "proc_exit") == 0) {
